@@ -48,6 +48,20 @@ func genC12(t *rapid.T) *c12Case {
 			c.Opts.Method = 4
 		}
 	}
+	if class == "lossless-50k" || class == "lossless-100k" {
+		// same area, extreme shapes: a few very long rows or very many short ones (fewer rows than one
+		// transform tile, fewer tile rows than workers, row splits that leave a worker without work)
+		if sh := rapid.IntRange(0, 5).Draw(t, "shape"); sh >= 4 {
+			area := w * h
+			long := rapid.SampledFrom([]int{1200, 2500, 3000, 5000, 8191, 16000}).Draw(t, "long")
+			short := area/long + 1 + rapid.IntRange(0, 6).Draw(t, "shortx")
+			if sh == 4 {
+				w, h = long, short
+			} else {
+				w, h = short, long
+			}
+		}
+	}
 	content := rapid.SampledFrom([]string{"photo", "tiled", "tiled", "pal16", "pal256", "gradient", "noise", "sparse", "regions", "regions", "regions", "bands", "bands", "bands"}).Draw(t, "content")
 	alpha := rapid.SampledFrom([]string{"opaque", "opaque", "gradient", "binary"}).Draw(t, "alpha")
 	seed := rapid.Uint64().Draw(t, "seed")
